@@ -94,6 +94,33 @@ let run (toks : string list) (obs : string) : string =
   if same then obs
   else String.concat " | " (List.map (fun calls -> String.concat " / " (List.map J_server.show_results calls)) model)
 
+(* C10 trace oracles on the real results *)
+let c10_oracles (ops : string list) (impl : res list list list) : (string * bool) list =
+  let starts_with p s = String.length s >= String.length p && String.sub s 0 (String.length p) = p in
+  let connected = ref false and connect_ok = ref true in
+  let play_active = ref false and media_ok = ref true in
+  let publishing = ref false and pub_requested = ref false and pubmedia_ok = ref true in
+  (try List.iter2 (fun op calls ->
+    let t = List.filter (fun s -> s <> "") (String.split_on_char ' ' op) in
+    let all = List.concat calls in
+    let has_packet = List.exists (function Pkt _ -> true | _ -> false) all in
+    (match t with
+     | "connect" :: _ -> if !connected && has_packet then connect_ok := false
+     | "play" :: _ -> if has_packet then play_active := true
+     | "stopplay" :: _ -> play_active := false
+     | "publish" :: _ -> if has_packet then pub_requested := true
+     | "stoppub" :: _ -> publishing := false; pub_requested := false
+     | ("video" | "audio" | "meta") :: _ -> if has_packet && not !publishing then pubmedia_ok := false
+     | _ -> ());
+    List.iter (function
+      | Other "E:ConnAccepted" -> connected := true
+      | Other "E:PubAccepted" -> if !pub_requested then publishing := true
+      | Other s when starts_with "E:Video:" s || starts_with "E:Audio:" s -> if not !play_active then media_ok := false
+      | _ -> ()) all) ops impl
+  with Invalid_argument _ -> ());
+  [ "C10.connect_only_when_disconnected", !connect_ok; "C10.media_events_only_while_play_requested_or_running", !media_ok;
+    "C10.publish_media_only_while_publishing", !pubmedia_ok ]
+
 let oracle (toks : string list) (obs : string) : (string * bool) list =
   let pk = J_server.impl_packets obs in
   let case = String.concat " " toks in
@@ -104,6 +131,7 @@ let oracle (toks : string list) (obs : string) : (string * bool) list =
   let marked = List.length (List.filter fst pk) in
   let checks = [ "C18.droppable_only_when_asked", marked <= asked_drop ] in
   let checks = (match ack_oracle ops (J_server.parse_obs obs) with Some b -> ("C17.ack_exactly_when_due", b) :: checks | None -> checks) in
+  let checks = c10_oracles ops (J_server.parse_obs obs) @ checks in
   if J_server.has_failed_call obs then checks
   else
     checks @ [ "C18.decodable", decodable pk (fun _ _ -> true);
